@@ -332,5 +332,5 @@ def run(ctx):
 
 
 def replay(ctx, path):
-    print(json.dumps(json.load(open(path)), indent=1, default=str)[:4000])
-    return 1
+    import sys
+    return common.replay_by_rerun(ctx, path, sys.modules[__name__])
